@@ -44,6 +44,30 @@ def cases(ctx):
     return out
 
 
+COLLIDE = [["foo-bar", "foo_bar"], ["fooBar", "foo_bar", "FooBar"], ["a", "A"], ["x", "X", "x "], ["id", "Id", "ID"], ["user-id", "userId", "user_id", "USER_ID"], ["type", "Type"], ["1a", "_1a"], ["a.b", "a-b", "a b"]]
+LABELS = [["Figure", "Figure", "Figure"], ["Foo", "Foo", "Foo2"], ["Item", "Item", "Item", "Item"], ["A", "a", "A"], ["Box", "Vec", "Box"], ["x y", "x-y", "xY"]]
+
+
+def scope_cases(ctx):
+    from specgen import base_spec
+    out = []
+    def spec_with(schemas):
+        s = base_spec()
+        s["components"]["schemas"].update(schemas)
+        s["paths"]["/r"] = {"get": {"operationId": "r", "responses": {"200": {"description": "ok", "content": {"application/json": {"schema": {"$ref": "#/components/schemas/Root"}}}}}}}
+        return s
+    for names in COLLIDE:
+        props = {n: {"type": "string"} for n in names}
+        out.append({"op": "naming.scopes", "in": {"kind": "props", "spec": spec_with({"Root": {"type": "object", "properties": props}}), "cfg": {"all_schemas": True}, "mode": "client-mod", "expect_fields": {"Root": len(props)}}})
+        for mode in ("merge", "preserve"):
+            out.append({"op": "naming.scopes", "in": {"kind": "enum-" + mode, "spec": spec_with({"Root": {"type": "object", "properties": {"k": {"$ref": "#/components/schemas/E"}}}, "E": {"type": "string", "enum": names}}), "cfg": {"all_schemas": True, "enum_mode": mode}, "mode": "client-mod"}})
+    for labels in LABELS:
+        members = [{"type": "object", "title": t, "properties": {"p%d" % i: {"type": "string"}}} for i, t in enumerate(labels)]
+        for kw in ("oneOf", "anyOf"):
+            out.append({"op": "naming.scopes", "in": {"kind": "union-labels", "spec": spec_with({"Root": {kw: members}}), "cfg": {"all_schemas": True}, "mode": "client-mod", "expect_variants": {"Root": len(labels)}}})
+    return out
+
+
 def run(ctx):
     ok_t = ctx.translate(["naming"])
     proofs_ok, driver_ok = ctx.build_lean(["Oas3Model.Props.C09"])
@@ -51,8 +75,10 @@ def run(ctx):
         ctx.audit("Oas3Model.Props.C09")
         if not ctx.quick:
             ctx.leanchecker("Oas3Model.Props.C09")
-    if driver_ok and ctx.build_harness(["k_naming"]):
+    if driver_ok and ctx.build_harness(["k_naming", "k_gen"]):
         corpus = vlib_corpus(ctx)
+        sc = scope_cases(ctx)
+        ctx.classify(ctx.evaluate(sc), shrink=False, tie="E")
         allc = corpus + cases(ctx)
         B = 20000
         for i in range(0, len(allc), B):
